@@ -723,7 +723,7 @@ class Flow:
                 if lusr is None and ln["k"] == "ref":
                     i2 = self.cn.single_init().get(ln.get("decl"))
                     lusr = f.nodes[f.strip(i2)].get("lusr") if i2 is not None else None
-                h = self.prog.fns.get(lusr) if lusr else None
+                h = self.prog.closure_fn(lusr) if lusr else None
                 if h is None or len(h.params) != 1:
                     continue
                 rets = [i for i, m in enumerate(h.nodes) if m["k"] == "return" and "val" in m]
